@@ -124,9 +124,12 @@ impl ZParams {
 }
 
 pub fn zparams(rng: &mut Rng) -> ZParams {
+    let level = *rng.pick(&[-5, 1, 1, 2, 3, 3, 4, 5, 6, 7, 9, 12, 15, 19, 22]);
+    // high levels with an unbounded window make libzstd allocate (and zero) gigabytes of tables
+    let window_log = if level >= 12 { Some(rng.range(10, 19) as u32) } else if rng.chance(1, 2) { Some(rng.range(10, 22) as u32) } else { None };
     ZParams {
-        level: *rng.pick(&[-5, 1, 1, 2, 3, 3, 4, 5, 6, 7, 9, 12, 15, 19, 22]),
-        window_log: if rng.chance(1, 2) { Some(rng.range(10, 22) as u32) } else { None },
+        level,
+        window_log,
         ldm: rng.chance(1, 8),
         checksum: rng.chance(1, 2),
         content_size: rng.chance(1, 2),
